@@ -220,6 +220,8 @@ def check_class(fx, R, cq):
         R.undecided('X3', cname + ':formulas', 'origin / cell-count formulas not interpretable: %s ; %s' % (origin_s, count_s))
         return
     witness_grids(fx, R, cname, g, fi, origin, count, env, l, u, r, loc)
+    if scalar == 'double':
+        floating_cover(fx, R, cname, st, env, loc)
     # ---- X1 table and index map ------------------------------------------------------------------
     loops = [x for x in walk(g['body']) if x.get('k') == 'For']
     inner = [L for L in loops if not any(y.get('k') == 'For' for y in walk(L['b']))]
@@ -573,6 +575,95 @@ def witness_grids(fx, R, cname, g, fi, origin, count, env, l, u, r, loc, grids=N
         R.violated('X6', label, 'on the %s, evaluating the constructor formulas and the index map exactly: %s [%s]' % (bad[0], bad[1], cname), loc, 'E-STEP')
     else:
         R.holds('X6', inst, '%d witness extents, %d sample points: centres one resolution apart, centre(n) -> n, in-extent points indexed inside [0, N) within half a resolution of their centre' % (n_grids, n_pts), loc, 'E-STEP')
+
+
+def floating_cover(fx, R, cname, st, env, loc):
+    """X7: the origin and cell-count statements of the interval constructor executed in IEEE double arithmetic (python floats are IEEE doubles; + - * / floor ceil and the truncating integer conversion are the
+    same operations) on witness extents whose resolution is not a power of two.  The clause decided is macroscopic, not a rounding statement: the cells [origin, origin + N res] must reach the upper bound and
+    start at or below the lower bound.  A count that is an integer only in exact arithmetic (a quotient that should cancel, then a truncating conversion) comes out one short for some of these extents and the last
+    cell is missing - a whole cell, whatever the tolerance."""
+    import math
+
+    class _No(Exception):
+        pass
+
+    def fev(t, e_):
+        if isinstance(t, bool):
+            raise _No(t)
+        if isinstance(t, (int, float)):
+            return t
+        if isinstance(t, str):
+            if t in e_:
+                return e_[t]
+            raise _No(t)
+        if not isinstance(t, tuple) or not t:
+            raise _No(t)
+        if t in e_ and not isinstance(e_[t], str):
+            return e_[t]
+        op = t[0]
+        if op in ('+', '-', '*', '/') and len(t) == 3:
+            a_, b_ = fev(t[1], e_), fev(t[2], e_)
+            if op == '/':
+                if b_ == 0:
+                    raise _No('division by zero')
+                if isinstance(a_, int) and isinstance(b_, int):
+                    return int(a_ / b_)
+                return a_ / b_
+            return a_ + b_ if op == '+' else a_ - b_ if op == '-' else a_ * b_
+        if op == 'u-' and len(t) == 2:
+            return -fev(t[1], e_)
+        if op == 'u+' and len(t) == 2:
+            return fev(t[1], e_)
+        base = str(op).split('::')[-1]
+        if base in ('floor', 'ceil', 'round', 'trunc') and len(t) == 2:
+            v_ = fev(t[1], e_)
+            return float({'floor': math.floor, 'ceil': math.ceil, 'trunc': math.trunc, 'round': lambda x_: math.floor(abs(x_) + 0.5) * (1 if x_ >= 0 else -1)}[base](v_))
+        if op == '.cast' and len(t) == 2:
+            v_ = fev(t[1], e_)
+            tgt = env.get(('cast-target', t))
+            if tgt == 'fp':
+                return float(v_)
+            if tgt == 'int':
+                return int(math.trunc(v_))
+            raise _No('cast')
+        if str(op).startswith('new:') and len(t) == 2:
+            return fev(t[1], e_)
+        raise _No(t)
+    checked = 0
+    bad = None
+    try:
+        for res in (0.1, 0.2, 0.3, 0.05, 0.7, 0.15, 0.025):
+            for i_ in range(-40, 41):
+                for lo in {i_ * res, round(i_ * res, 9), round((i_ + 0.5) * res, 9)}:
+                    for j_, fr_ in ((3, 0.8), (17, 1.0), (6, 0.6)):
+                        hi = round(lo + (j_ + fr_) * res, 9)
+                        e_ = {('.lower', 'extrimities'): lo, ('.upper', 'extrimities'): hi, ('.width', 'extrimities'): hi - lo, ('.center', 'extrimities'): (hi + lo) / 2, 'this.cellResolution_': res, 'cellResolution': res}
+                        for s_ in st:
+                            if s_[0] == 'decl' and s_[2] is not None:
+                                try:
+                                    e_[s_[1]] = fev(s_[2], e_)
+                                except _No:
+                                    pass
+                            if s_[0] == 'expr' and isinstance(s_[1], tuple) and len(s_[1]) == 3 and s_[1][0] in ('=', '+=', '-=', '*=', '/=') and s_[1][1] in ('this.flooredMinimalPositionAlongAxes_', 'this.numberOfCellsAlongAxes_'):
+                                e_[s_[1][1]] = fev(s_[1][2] if s_[1][0] == '=' else (s_[1][0][0], s_[1][1], s_[1][2]), e_)
+                        o_, n_ = e_['this.flooredMinimalPositionAlongAxes_'], e_['this.numberOfCellsAlongAxes_']
+                        checked += 1
+                        tol_ = 1e-6 * res
+                        if not (isinstance(n_, int) and n_ > 0):
+                            bad = bad or (lo, hi, res, o_, n_, 'the cell count is %r' % (n_,))
+                        elif hi > o_ + n_ * res + tol_:
+                            bad = bad or (lo, hi, res, o_, n_, 'the cells end at origin + N res = %.12g, below the upper bound by %.3g of a cell: the last cell the extent needs is missing' % (o_ + n_ * res, (hi - o_ - n_ * res) / res))
+                        elif lo < o_ - tol_:
+                            bad = bad or (lo, hi, res, o_, n_, 'the first cell starts at %.12g, above the lower bound' % o_)
+    except (_No, KeyError) as ex:
+        R.undecided('X7', cname + ':cover-in-double', 'origin / count statements not executable in floating point: %s' % (str(ex)[:100],))
+        return
+    if bad:
+        R.violated('X7', 'GridIndexMapping:cover-in-double', 'executing the origin and cell-count statements of the interval constructor in IEEE double arithmetic on the extent [%r, %r] at resolution %r gives origin %r and '
+                   'N = %r cells: %s.  In exact arithmetic the same statements give the right count - the expression is an integer only up to the rounding of a quotient / product that does not cancel in floating '
+                   'point, and the conversion to the integer count truncates [%s]' % (bad[0], bad[1], bad[2], bad[3], bad[4], bad[5], cname), loc, 'E-STEP')
+    else:
+        R.holds('X7', cname + ':cover-in-double', 'origin and count executed in IEEE double arithmetic on %d witness extents (resolutions that are not powers of two): the cells reach both bounds' % checked, loc, 'E-STEP')
 
 
 def check_self_pointers(fx, R, cq):
